@@ -452,6 +452,8 @@ def function_lints(m, qn, fn):
     out += [("sample-membership", n, msg) for n, msg in sample_membership(fn)]
     out += [("unsafe-int-cast", n, msg) for n, msg in unsafe_int_cast(fn)]
     out += [("flag-equality", n, msg) for n, msg in flag_equality(fn)]
+    out += [("cache-escape", n, msg) for n, msg in cache_escape(fn)]
+    out += [("return-before-check", n, msg) for n, msg in return_before_check(fn)]
     return out
 
 
@@ -930,7 +932,17 @@ def sample_membership(fn):
                     if isinstance(c, ast.Compare) and isinstance(c.left, ast.Name) and c.left.id == tgt.id and any(isinstance(o, (ast.In, ast.NotIn)) for o in c.ops):
                         out.append((c, "`%s`: `%s` runs over range(num_samples) – a sample INDEX – but sample sets hold node IDs "
                                     "(iterate self.samples())" % (ast.unparse(c)[:40], tgt.id)))
+    # the vectorised spelling: np.isin(np.arange(num_samples), A)
+    for c in ast.walk(fn):
+        if isinstance(c, ast.Call) and ast.unparse(c.func) in ("np.isin", "np.in1d", "numpy.isin") and c.args \
+                and isinstance(c.args[0], ast.Call) and ast.unparse(c.args[0].func) in ("np.arange", "range") and "num_samples" in ast.unparse(c.args[0]):
+            out.append((c, "`%s` matches sample INDEXES 0..n-1 against a set of node IDs (use self.samples())" % ast.unparse(c)[:50]))
     return out[:1]
+
+
+# (function, parameter): narrowing conversions confirmed by reading to be deliberate and not applied to caller-supplied ids
+UNSAFE_CAST_OK = {("keep_with_offset", "offset"),      # row LENGTHS of a ragged column, int32 on purpose ("for 32 bit machines": np.repeat counts)
+                  }
 
 
 def unsafe_int_cast(fn):
@@ -947,9 +959,10 @@ def unsafe_int_cast(fn):
                 and x.args[0].id in params and any(k.arg == "dtype" and narrow.search(ast.unparse(k.value)) for k in x.keywords):
             out.append((x, "`%s` narrows the caller's `%s` without a range check (use util.safe_np_int_cast): 2**32 + k becomes k, 1.7 becomes 1"
                         % (ast.unparse(x)[:50], x.args[0].id)))
-        elif isinstance(x.func, ast.Attribute) and x.func.attr == "astype" and isinstance(x.func.value, ast.Name) and x.func.value.id in params \
-                and x.args and narrow.search(ast.unparse(x.args[0])):
-            out.append((x, "`%s` narrows the caller's `%s` without a range check (use util.safe_np_int_cast)" % (ast.unparse(x)[:50], x.func.value.id)))
+        elif isinstance(x.func, ast.Attribute) and x.func.attr == "astype" and x.args and narrow.search(ast.unparse(x.args[0])) \
+                and (_names(x.func.value) & params) and not ({(fn.name, n_) for n_ in _names(x.func.value)} & UNSAFE_CAST_OK):
+            out.append((x, "`%s` narrows the caller's `%s` without a range check (use util.safe_np_int_cast)"
+                        % (ast.unparse(x)[:50], sorted(_names(x.func.value) & params)[0])))
     return out
 
 
@@ -982,3 +995,68 @@ def sort_last(ctx, py, rule="PY-SORT-LAST"):
            "sort() follows all %d parse_* calls" % len(parses) if ok else
            ("`%s` runs after the repair sort" % ast.unparse(late[0].func) if late else "load_text has %d sort() calls" % len(sorts)))
     return 1
+
+
+_SCALARISERS = ("int", "float", "len", "bool", "str", "bytes", "tuple", "frozenset")
+
+
+def cache_escape(fn):
+    """[(node, message)]: a method stores the result of a call on `self._x` (a lazily filled cache) and returns that very object:
+    every caller gets the same mutable array, and an in-place edit by one changes what all later calls return.  Accepted: the
+    cached object is frozen (`.flags.writeable = False` / `setflags(write=False)`), immutable by construction (int / float /
+    tuple …), or a copy is returned."""
+    out = []
+    cached = {}
+    for x in ast.walk(fn):
+        if isinstance(x, ast.Assign) and len(x.targets) == 1 and isinstance(x.targets[0], ast.Attribute) \
+                and isinstance(x.targets[0].value, ast.Name) and x.targets[0].value.id == "self" and x.targets[0].attr.startswith("_") \
+                and isinstance(x.value, ast.Call) and ast.unparse(x.value.func).split(".")[-1] not in _SCALARISERS:
+            # only LAZY caches: the assignment sits under `if self._x is None`
+            cached[x.targets[0].attr] = x
+    if not cached:
+        return out
+    src = ast.unparse(fn)
+    alias = {}
+    for x in ast.walk(fn):
+        if isinstance(x, ast.Assign) and len(x.targets) == 1 and isinstance(x.targets[0], ast.Name) and isinstance(x.value, ast.Attribute) \
+                and isinstance(x.value.value, ast.Name) and x.value.value.id == "self" and x.value.attr in cached:
+            alias[x.targets[0].id] = x.value.attr
+    for r in ast.walk(fn):
+        if not isinstance(r, ast.Return) or r.value is None:
+            continue
+        v = r.value
+        attr = v.attr if (isinstance(v, ast.Attribute) and isinstance(v.value, ast.Name) and v.value.id == "self") else \
+            alias.get(v.id) if isinstance(v, ast.Name) else None
+        if attr in cached and re.search(r"if self\.%s is None" % re.escape(attr), src):
+            frozen = re.search(r"writeable\s*=\s*False|setflags\(write=False\)", src) is not None
+            if not frozen:
+                out.append((r, "`self.%s` caches the result of `%s` and is returned itself: callers share one mutable object "
+                            "(freeze it or return a copy)" % (attr, ast.unparse(cached[attr].value)[:40])))
+    return out[:1]
+
+
+def return_before_check(fn):
+    """[(node, message)]: in one block, `if <test over p>: return …` comes BEFORE `if <test over p>: raise …`: the early return
+    answers for inputs that the later argument check would have refused."""
+    out = []
+    params = {p_.arg for p_ in fn.args.posonlyargs + fn.args.args + fn.args.kwonlyargs} - {"self", "cls"}
+    if not params:
+        return out
+    # names derived from a parameter by a conversion (index = np.asarray(index)) stay that parameter
+    for blk in ast.walk(fn):
+        body = getattr(blk, "body", None)
+        if not isinstance(body, list):
+            continue
+        for i, s_ in enumerate(body):
+            if not (isinstance(s_, ast.If) and not s_.orelse and s_.body and isinstance(s_.body[-1], ast.Return) and s_.body[-1].value is not None):
+                continue
+            names_i = _names(s_.test) & params
+            if not names_i:
+                continue
+            for t_ in body[i + 1:]:
+                if isinstance(t_, ast.If) and t_.body and isinstance(t_.body[0], ast.Raise) and (_names(t_.test) & names_i) \
+                        and any(isinstance(c, ast.Call) and ast.unparse(c.func) == "len" for c in ast.walk(t_.test)):
+                    out.append((s_, "`if %s: return …` precedes the check `if %s: raise …` of the same argument: inputs the check "
+                                "would refuse are answered by the shortcut" % (ast.unparse(s_.test)[:40], ast.unparse(t_.test)[:40])))
+                    break
+    return out[:1]
